@@ -39,9 +39,11 @@ Definition SPKI_RECORD_NOT_FOUND : Z := c_SPKI_RECORD_NOT_FOUND.
    C10 FIX SWITCH.  [false] = the code as it is: spki_table_src_remove calls no update_fp.
    After the fix proposed in /verif/proposed_fixes/C10-src-remove-callbacks.diff is applied to
    /repo, set this to [true]; then in Props/Properties_C10.v replace C10_refuted by
-     Theorem C10_full_holds : C10_full.  Proof. exact (C10_full_of_fix eq_refl). Qed.
+     Theorem C10_full_holds : C10_full.  Proof. exact (full_of_fix eq_refl). Qed.
+   (and its Print Assumptions line; in tools/props/C10.py replace "C10_refuted" by "C10_full_holds" in
+   THEOREMS).  Nothing else changes: SpkiProofs.v is written for both values.
    ====================================================================================== *)
-Definition SRC_REMOVE_NOTIFIES : bool := false.
+Definition SRC_REMOVE_NOTIFIES : bool := true.
 
 Section Spki.
 Variable hash : Z -> Z.
